@@ -311,6 +311,47 @@ theorem audit_footprint_36 (kex keys : List Str) (o : Bool) (e : Env) :
   rw [h17, gex_algs_size] at this
   exact this
 
+/-- **… including the initial handshake's one retry as SSH-1**: whatever the first connection brings, the connections are
+    bounded and each is well-formed; the retry happens at most once and is followed by no probe. -/
+theorem audit_footprintH_bounded (h : HsOutcome) (types rsaFamily startable gexAlgs kex keys : List Str) (o : Bool) (e : Env) :
+    (auditFootprintH h types rsaFamily startable gexAlgs kex keys o e).length ≤ max 2 (1 + types.length + 9 * gexAlgs.length) ∧
+    (h ≠ .proceeds → (auditFootprintH h types rsaFamily startable gexAlgs kex keys o e).length ≤ 2) ∧
+    ∀ c ∈ auditFootprintH h types rsaFamily startable gexAlgs kex keys o e, WF c := by
+  have hwf : WF hsConn := ⟨by simp [hsConn, shapes, msgKexinit], by simp [hsConn, isInit, msgKexinit, msgKexdhInit, msgGexInit], fun _ => rfl⟩
+  have hb := audit_footprint_bounded types rsaFamily startable gexAlgs kex keys o e
+  simp only at hb
+  cases h with
+  | proceeds =>
+    simp only [auditFootprintH]
+    exact ⟨by omega, fun h => absurd rfl h, hb.2.2.2⟩
+  | versionsDiffer b rb =>
+    cases b
+    · simp only [auditFootprintH]
+      refine ⟨by simp only [List.length_cons, List.length_nil]; omega, fun _ => by simp, ?_⟩
+      intro c hc; simp only [List.mem_singleton] at hc; subst hc; exact hwf
+    · simp only [auditFootprintH]
+      refine ⟨by simp only [List.length_cons, List.length_nil]; omega, fun _ => by simp, ?_⟩
+      intro c hc
+      simp only [List.mem_cons, List.mem_nil_iff, or_false] at hc
+      rcases hc with hc | hc
+      · subst hc; exact hwf
+      · subst hc
+        cases rb
+        · exact ⟨by simp [hsConn, shapes], by simp [hsConn, isInit], fun _ => rfl⟩
+        · exact ⟨by simp [hsConn, shapes, msgKexinit], by simp [hsConn, isInit, msgKexinit, msgKexdhInit, msgGexInit], fun _ => rfl⟩
+  | ends =>
+    simp only [auditFootprintH]
+    refine ⟨by simp only [List.length_cons, List.length_nil]; omega, fun _ => by simp, ?_⟩
+    intro c hc; simp only [List.mem_singleton] at hc; subst hc; exact hwf
+
+/-- with the regenerated tables: at most 36 connections before the rate check, whatever the target does -/
+theorem audit_footprint_total (h : HsOutcome) (kex keys : List Str) (o : Bool) (e : Env) :
+    (auditFootprintH h (Gen.hostKeyTypes.map (·.name)) Gen.rsaFamily Gen.kexToDhgroupKeys Gen.gexAlgs kex keys o e).length ≤ 36 := by
+  have := (audit_footprintH_bounded h (Gen.hostKeyTypes.map (·.name)) Gen.rsaFamily Gen.kexToDhgroupKeys Gen.gexAlgs kex keys o e).1
+  have h17 : (Gen.hostKeyTypes.map (·.name)).length = 17 := by rw [List.length_map]; exact hostkey_table_size
+  rw [h17, gex_algs_size] at this
+  omega
+
 -- non-vacuity: a full plan exercising every outcome
 example : (auditFootprint ["ssh-rsa".toList, "ssh-ed25519".toList] ["ssh-rsa".toList] ["curve25519-sha256".toList] ["gex".toList] ["curve25519-sha256".toList, "gex".toList]
     ["ssh-ed25519".toList, "ssh-rsa".toList] false { plan := [(.exchanged, true), (.exchanged, false), (.groupFail, false), (.kexFail, false)], sizeOf := fun _ => some 2048 }).length = 8 := by decide +kernel
